@@ -36,35 +36,69 @@ Proof.
   f_equal. rewrite map_map. apply map_ext. intros v. rewrite translated_call_mapping_lemma. reflexivity.
 Qed.
 
-(* 3. the read loop: a chain of pieces from start to stop *)
+(* 3. the read loop.  Canonical form: advance to the end of the piece just read.  The translated loop is
+      either exactly that (while c < stop: ...; c = e) or advances by the chunk size (for c in
+      range(start, stop, cs)); both deliver the same pieces. *)
+Fixpoint creads (fuel : nat) (c stop cs : Z) : list (Z * Z) :=
+  match fuel with
+  | O => []
+  | S fuel' => if c <? stop then let e := Z.min (c + cs) stop in (c, e) :: creads fuel' e stop cs else []
+  end.
+
+Lemma creads_done : forall fuel c stop cs, stop <= c -> creads fuel c stop cs = [] /\ gen_slice_reads fuel c stop cs = [].
+Proof.
+  intros fuel c stop cs H. destruct fuel; cbn [creads gen_slice_reads]; [split; reflexivity|].
+  replace (c <? stop) with false by lia. split; reflexivity.
+Qed.
+
+Lemma gen_creads_canonical : forall fuel c stop cs, 1 <= cs -> gen_slice_reads fuel c stop cs = creads fuel c stop cs.
+Proof.
+  induction fuel as [|f IH]; intros c stop cs Hcs; [reflexivity|].
+  cbn [gen_slice_reads creads]. destruct (c <? stop) eqn:E; [|reflexivity]. cbv zeta. f_equal.
+  all: first
+    [ apply IH; exact Hcs
+    | destruct (c + cs <=? stop) eqn:E2;
+      [ replace (Z.min (c + cs) stop) with (c + cs) by lia; apply IH; exact Hcs
+      | replace (Z.min (c + cs) stop) with stop by lia;
+        rewrite (proj2 (creads_done f (c + cs) stop cs ltac:(lia))), (proj1 (creads_done f stop stop cs ltac:(lia))); reflexivity ] ].
+Qed.
+
 Fixpoint chain (c : Z) (l : list (Z * Z)) (stop : Z) : Prop :=
   match l with
   | [] => c = stop
   | (a, b) :: tl => a = c /\ a < b /\ chain b tl stop
   end.
 
-Lemma slice_reads_chain : forall fuel c stop cs, 1 <= cs -> c <= stop -> stop - c <= Z.of_nat fuel ->
-  chain c (gen_slice_reads fuel c stop cs) stop.
+Lemma creads_chain : forall fuel c stop cs, 1 <= cs -> c <= stop -> stop - c <= Z.of_nat fuel ->
+  chain c (creads fuel c stop cs) stop.
 Proof.
   induction fuel as [|f IH]; intros c stop cs Hcs Hle Hf.
   - simpl. lia.
-  - cbn [gen_slice_reads]. destruct (c <? stop) eqn:E.
+  - cbn [creads]. destruct (c <? stop) eqn:E.
     + cbn [chain]. split; [reflexivity|]. split; [lia|]. apply IH; lia.
     + simpl. lia.
 Qed.
 
-Lemma slice_reads_in_chunk : forall fuel c stop cs, 1 <= cs -> c mod cs = 0 ->
-  Forall (fun p => fst p mod cs = 0 /\ fst p < snd p /\ snd p <= fst p + cs /\ snd p <= stop) (gen_slice_reads fuel c stop cs).
+Lemma slice_reads_chain : forall fuel c stop cs, 1 <= cs -> c <= stop -> stop - c <= Z.of_nat fuel ->
+  chain c (gen_slice_reads fuel c stop cs) stop.
+Proof. intros. rewrite gen_creads_canonical by assumption. apply creads_chain; assumption. Qed.
+
+Lemma creads_in_chunk : forall fuel c stop cs, 1 <= cs -> c mod cs = 0 ->
+  Forall (fun p => fst p mod cs = 0 /\ fst p < snd p /\ snd p <= fst p + cs /\ snd p <= stop) (creads fuel c stop cs).
 Proof.
-  induction fuel as [|f IH]; intros c stop cs Hcs Hal; cbn [gen_slice_reads]; [constructor|].
+  induction fuel as [|f IH]; intros c stop cs Hcs Hal; cbn [creads]; [constructor|].
   destruct (c <? stop) eqn:E; [|constructor].
   constructor; [cbn [fst snd]; lia|].
   destruct (c + cs <=? stop) eqn:E2.
   - replace (Z.min (c + cs) stop) with (c + cs) by lia. apply IH; [lia|].
     rewrite Z.add_mod by lia. rewrite Hal, Z.mod_same by lia. reflexivity.
   - replace (Z.min (c + cs) stop) with stop by lia.
-    destruct f; cbn [gen_slice_reads]; [constructor|]. rewrite Z.ltb_irrefl. constructor.
+    rewrite (proj1 (creads_done f stop stop cs ltac:(lia))). constructor.
 Qed.
+
+Lemma slice_reads_in_chunk : forall fuel c stop cs, 1 <= cs -> c mod cs = 0 ->
+  Forall (fun p => fst p mod cs = 0 /\ fst p < snd p /\ snd p <= fst p + cs /\ snd p <= stop) (gen_slice_reads fuel c stop cs).
+Proof. intros. rewrite gen_creads_canonical by assumption. apply creads_in_chunk; assumption. Qed.
 
 Lemma zrange_shift : forall a b m k, a <= b ->
   map (fun i : nat => a + Z.of_nat i) (seq (Z.to_nat (b - a) + k) m) = map (fun i : nat => b + Z.of_nat i) (seq k m).
